@@ -11,7 +11,7 @@ from .. import gen
 from .. import prog as PG
 
 FWD_FAMILIES = PG.FAMILIES_ALL + PG.FAMILIES_FWD_ONLY
-FWD_SINGLE = ['un', 'kink', 'special', 'unp', 'unfwd', 'bin', 'bcast', 'binc', 'pow', 'neg', 'abs', 'minmax', 'get', 'T', 'reshape', 'buf', 'set',
+FWD_SINGLE = ['un', 'kink', 'special', 'unp', 'unfwd', 'bin', 'bcast', 'binc', 'pow', 'powreg', 'neg', 'abs', 'minmax', 'get', 'T', 'reshape', 'buf', 'set',
               'rmw', 'sum', 'prod', 'trace', 'dot', 'dotc', 'dotnd', 'outer', 'inv', 'solve', 'det', 'logdet', 'expm', 'qr', 'chol', 'eigh',
               'svd', 'svdfull', 'lu', 'fft', 'tile', 'diag', 'tri', 'symvec', 'umax']
 REV_SINGLE = ['un', 'kink', 'special', 'unp', 'bin', 'bcast', 'binc', 'pow', 'neg', 'get', 'T', 'reshape', 'buf', 'set', 'rmw', 'sum', 'prod', 'trace',
